@@ -21,11 +21,12 @@ counters, and that a cycle gives a runtime error.
 """
 import json
 import random
+import time
 
 from .common import MachineryError
 from . import c10 as S
 
-C11_VERDICT = {"names", "members", "value", "loadonce", "outcome-cls"}
+C11_VERDICT = {"names", "members", "value", "probe", "loadonce", "outcome-cls"}
 INTERPS = ["i1"]
 
 
@@ -150,12 +151,14 @@ def run(run):
         nonlocal total_edges, total_evals
         g, res = S.tlc_graph(run, cfg, label, c11=True)
         fsdefs, roots = roots_of(g)
+        t0 = time.time()
         e, v = S.walk(run, g, INTERPS, [(sid, fi, None) for sid, fi in roots], fsdefs, "cover",
                       C11_VERDICT, "c11/" + cfg, loadcap=2)
         total_edges += e
         total_evals += v
         info[name] = {"module_graphs": len(fsdefs), "states": len(g.key),
-                      "graph_edges": sum(len(x) for x in g.out.values()), "commands_executed": e}
+                      "graph_edges": sum(len(x) for x in g.out.values()), "commands_executed": e,
+                      "tlc_wall_s": round(res.wall, 1), "replay_wall_s": round(time.time() - t0, 1)}
         return g, fsdefs
 
     def sim(cfg, label, name, num):
@@ -163,10 +166,12 @@ def run(run):
         g, res = S.tlc_graph(run, cfg, label, c11=True, workers=1, simulate=f"num={num}", depth=900,
                              seed=rng.randrange(1 << 30))
         fsdefs, roots, ntraces = traces_of(g, res)
+        t0 = time.time()
         e, v = S.walk(run, g, INTERPS, roots, fsdefs, "trie", C11_VERDICT, "c11/" + cfg, loadcap=2)
         total_edges += e
         total_evals += v
-        info[name] = {"traces": ntraces, "module_graphs": len(fsdefs), "commands_executed": e}
+        info[name] = {"traces": ntraces, "module_graphs": len(fsdefs), "commands_executed": e,
+                      "tlc_wall_s": round(res.wall, 1), "replay_wall_s": round(time.time() - t0, 1)}
         return g, fsdefs, roots
 
     g, fsdefs = bfs("Modules_quick", "Session/c11: all graphs over 3 modules, entry through the first module",
@@ -176,7 +181,7 @@ def run(run):
     bfs("Modules_pairs", "Session/c11: all graphs over 2 modules, importer programs <= 2 commands, termination",
         "graphs2_pairs")
     g, fsdefs, roots = sim("Modules_sim", "Session/c11 simulation: random graphs over 3 modules, 4 commands",
-                           "sim3", 1500 if quick else 20000)
+                           "sim3", 1500 if quick else 10000)
     sid, fi, trie = roots[0]
     k = sorted(trie, key=int)[0]
     run.sample({"importer": {"fs": fsdefs[fi]["g"], "first_command": S.cmd_source(g.out[sid][int(k)][0]),
@@ -184,7 +189,7 @@ def run(run):
     if not quick:
         bfs("Modules_thorough", "Session/c11: all graphs over 3 modules, importer programs <= 2 commands",
             "graphs3_pairs")
-        sim("Modules_sim5", "Session/c11 simulation: random graphs over 5 modules, 4 commands", "sim5", 20000)
+        sim("Modules_sim5", "Session/c11 simulation: random graphs over 5 modules, 4 commands", "sim5", 10000)
     probes(run)
     run.cov["traces_validated_against_impl"] = total_edges
     run.cov["evaluations"] = total_evals
